@@ -523,7 +523,16 @@ func checkNegative(t *rapid.T, b built) (string, string, error) {
 			any = append(any, i)
 		}
 	}
-	kind := rapid.SampledFrom([]string{"missing", "kind"}).Draw(t, "negkind")
+	kind := rapid.SampledFrom([]string{"missing", "missing", "kind", "kind", "bare"}).Draw(t, "negkind")
+	if kind == "bare" && len(required) > 0 {
+		// the field selected without any argument at all
+		for i := range c.Fields {
+			c.Fields[i].Transport = "omitted"
+		}
+		c.Neg = "missing:all:bare"
+		q, vars := render(c)
+		return c.Neg, "", expectRejected(q, vars)
+	}
 	if kind == "missing" && len(required) > 0 {
 		i := required[rapid.IntRange(0, len(required)-1).Draw(t, "negfield")]
 		mode := rapid.SampledFrom([]string{"omitted", "null-var", "absent-var"}).Draw(t, "missmode")
